@@ -6,6 +6,7 @@ COMMON_OVERLAY = {
     "internal/zzverif/verif.go": "harness/zzverif/verif.go",
     "internal/zzverif/desc.go": "harness/zzverif/desc.go",
     "internal/zzverif/http.go": "harness/zzverif/http.go",
+    "internal/zzverif/json.go": "harness/zzverif/json.go",
     "internal/clientgen/zz_verif_export.go": "harness/export/clientgen_export.go",
     "internal/tsclientgen/zz_verif_export.go": "harness/export/tsclientgen_export.go",
     "internal/tsservergen/zz_verif_export.go": "harness/export/tsservergen_export.go",
@@ -16,6 +17,7 @@ COMMON_OVERLAY_E = {
     "zzverif/verif.go": "harness/zzverif/verif.go",
     "zzverif/desc.go": "harness/zzverif/desc.go",
     "zzverif/http.go": "harness/zzverif/http.go",
+    "zzverif/json.go": "harness/zzverif/json.go",
 }
 
 DEFAULT_INIT = [MOD + "/http"] + [MOD + "/internal/" + p for p in
@@ -78,4 +80,13 @@ PROPERTIES = {
                 + [dict(func="VerifC12HTTPConfig", reach=["C12/http/decided"], quick=dict(budget=300, parts=8, flags=["-maxpaths", "200000"]), thorough=dict(budget=1500, parts=16, flags=["-maxpaths", "400000"]))],
                 bounds_text={"quick": "per rule: one message with one field of symbolic kind (quick: 9 representative kinds, thorough: all 17) x cardinality (singular/optional/repeated/map) x annotation value, plus a plain sibling; placed top-level / nested / in a non-service file of the run / in an imported file; the file set also holds one service with one POST method; both Go generators run in full (recording emission stubs)"},
                 assumptions=["cases the rule text leaves open are assumed away and listed: repeated Timestamp with timestamp_format, repeated bytes with bytes_encoding"]),
+    "C02": E_BINDING(
+        overlay={"gen/binding/zz_verif_c02.go": "harness/c02/c02_binding.go"},
+        harnesses=[dict(func="VerifC02UpdateReq", reach=["C02/delivered", "C02/unconvertible", "C02/empty-path"], quick=dict(budget=400, parts=8), thorough=dict(budget=1500, parts=16)),
+                   dict(func="VerifC02Kinds", reach=["C02/kinds/delivered", "C02/kinds/unconvertible", "C02/kinds/missing-required"], quick=dict(budget=400, parts=8), thorough=dict(budget=1500, parts=16))],
+        bounds_text={"quick": "UpdateReq: verb in 5 x path value (printable ASCII <= 5) x query 'count' occurring 0/1/2 times (values <= 11 / <= 3 chars) x body in {nil, empty, {}, {note:s}}, JSON content type. "
+                              "Kinds: verb in 5 x one query parameter among int32/int64(required)/bool/uint32/uint64/double/float/repeated string/optional int32 with value <= 11 chars, 1-2 occurrences, required parameter present or absent, no body"},
+        assumptions=E_ASSUMPTIONS + ["the query string is given as parsed url.Values (net/url parsing and percent-decoding are outside the claim)",
+                                     "bodies are abstract JSON documents decoded by a model of protojson.Unmarshal (reset, JSON/proto names, unknown key => error, category checks)",
+                                     "TS server (S2) and OpenAPI (S3) halves are not encoded in this check"]),
 }
